@@ -101,6 +101,35 @@ func (w *encWalker) recvFieldPath(v ssa.Value) (string, bool) {
 	if root == w.recv {
 		return strings.Join(p.Elems, "."), true
 	}
+	// a local that holds a copy of a receiver member (openedTs := hdr.FileOpeningTimestamp,
+	// the value receiver of an inlined method): continue through the copy
+	cur, elems := root, p.Elems
+	for hops := 0; hops < 4; hops++ {
+		a, ok := cur.(*ssa.Alloc)
+		if !ok || a == w.recv {
+			break
+		}
+		var src ssa.Value
+		nst := 0
+		for _, ref := range *a.Referrers() {
+			if st, ok := ref.(*ssa.Store); ok && st.Addr == ssa.Value(a) {
+				nst++
+				src = st.Val
+			}
+		}
+		if nst != 1 {
+			break
+		}
+		sp, ok := pathOf(stripConvSameSize(src))
+		if !ok {
+			break
+		}
+		elems = append(append([]string{}, sp.Elems...), elems...)
+		if sp.Root == w.recv {
+			return strings.Join(elems, "."), true
+		}
+		cur = sp.Root
+	}
 	// range element copied into a local: name it by its type
 	if a, ok := root.(*ssa.Alloc); ok {
 		if n := namedOf(a.Type()); n != nil {
